@@ -11,6 +11,7 @@ import OidcModel.Spec.C09
 import OidcModel.Model.C09Tie
 import OidcModel.Proofs.C09Bounds
 import OidcModel.Proofs.C09Fields
+import OidcModel.Proofs.C09Asserts
 
 namespace C09
 
